@@ -675,13 +675,20 @@ def F6(m, R):
             R.undecided(host, host.node, 'roles of the two states / two lists of the diff not recognised', construct='set_ansi_str diff')
             host = None
     # the list handed to apply_formatting may be a re-ordering / filtering of the list the diff fills: [x for x in <seq> if <x among L>]
-    app_sources = {to_app} if host is not None else set()
-    if host is not None:
-        for n in host.walk():
-            if isinstance(n, ast.Assign) and norm(n.targets[0]) == to_app and isinstance(n.value, ast.ListComp) and len(n.value.generators) == 1 and \
-                    norm(n.value.elt) == norm(n.value.generators[0].target) and n.value.generators[0].ifs:
-                for c_ in n.value.generators[0].ifs:
-                    app_sources |= {x for x in names_in(c_) if x != norm(n.value.generators[0].target)}
+    def closure_(name):
+        out = {name}
+        for _ in range(4):
+            for n in host.walk():
+                if isinstance(n, ast.Assign) and len(n.targets) == 1 and norm(n.targets[0]) in out:
+                    if isinstance(n.value, ast.Name):
+                        out.add(n.value.id)                  # a plain copy
+                    elif isinstance(n.value, ast.ListComp) and len(n.value.generators) == 1 and norm(n.value.elt) == norm(n.value.generators[0].target) and \
+                            n.value.generators[0].ifs:
+                        for c_ in n.value.generators[0].ifs:     # [x for x in <seq> if <x among L>]: a re-ordering / filtering of L
+                            out |= {x for x in names_in(c_) if x != norm(n.value.generators[0].target)}
+        return out
+    app_sources = closure_(to_app) if host is not None else set()
+    rem_sources = closure_(to_rem) if host is not None else set()
     for status in (('only-new', 'only-old', 'both-same', 'both-diff') if host is not None else ()):
         cons = 'set_ansi_str diff %s' % status
         events = []
@@ -694,14 +701,22 @@ def F6(m, R):
                     continue
                 if src == OLD and status == 'only-new':
                     continue
-                val = _status_valuation(K, OLD, NEW, V, status)
+                val0 = _status_valuation(K, OLD, NEW, V, status)
+                # locals of the loop body that only name a sub-expression (old_setting = OLD[key])
+                lal = {}
+                for x_ in ast.walk(lp):
+                    if isinstance(x_, ast.Assign) and len(x_.targets) == 1 and isinstance(x_.targets[0], ast.Name) and isinstance(x_.value, (ast.Subscript, ast.Name, ast.Attribute)):
+                        lal[x_.targets[0].id] = x_.value
 
-                def visit(st, src=src, K=K, V=V):
+                def val(atom, val0=val0, lal=lal):
+                    return val0(subst(atom, lal)) if lal else val0(atom)
+
+                def visit(st, src=src, K=K, V=V, lal=lal):
                     if isinstance(st, ast.Expr) and call_name(st.value) == 'append':
                         lst = norm(st.value.func.value)
-                        a = norm(st.value.args[0])
+                        a = norm(subst(st.value.args[0], lal)) if lal else norm(st.value.args[0])
                         which = 'old' if a in ('%s[%s]' % (OLD, K),) or (src == OLD and a == V) else 'new' if (a == '%s[%s]' % (NEW, K) or (src == NEW and a == V)) else a
-                        events.append(('remove' if lst == to_rem else 'apply' if lst in app_sources else lst, which))
+                        events.append(('remove' if lst in rem_sources else 'apply' if lst in app_sources else lst, which))
                     for x in ast.walk(st):
                         if isinstance(x, ast.Subscript) and norm(x.value) == OLD:
                             sub_old.append(st)
@@ -758,6 +773,11 @@ def F6(m, R):
             if c == NEW or any(isinstance(y, ast.Assign) and norm(y.targets[0]) == c and norm(y.value) == NEW for y in opt.body):
                 OLD = x.targets[0].id
     if OLD is None:
+        # no alias: the carried state itself is read as the old state and replaced by the new one afterwards
+        for y in opt.body:
+            if isinstance(y, ast.Assign) and isinstance(y.targets[0], ast.Name) and norm(y.value) == NEW and opt.body.index(y) > opt.body.index(std_call):
+                OLD = y.targets[0].id
+    if OLD is None:
         R.undecided(f, opt, 'old/new state variables of the optimiser not recognised', construct='optimiser state')
         return
     # clauses that contribute codes: loops with an append, or comprehensions; each: (source dict, key name, value name, conditions, element)
@@ -768,16 +788,16 @@ def F6(m, R):
             K = norm(x.target) if not isinstance(x.target, ast.Tuple) else norm(x.target.elts[0])
             Vn = norm(x.target.elts[1]) if isinstance(x.target, ast.Tuple) else None
             clauses.append(('loop', src, K, Vn, x.body, None))
-        elif (isinstance(x, (ast.AugAssign, ast.Assign)) and isinstance(x.value, ast.ListComp)) or \
-                (isinstance(x, ast.Expr) and call_name(x.value) == 'extend' and x.value.args and isinstance(x.value.args[0], (ast.ListComp, ast.GeneratorExp))):
-            comp_ = x.value if not isinstance(x, ast.Expr) else x.value.args[0]
-            g = comp_.generators[0]
-            it = norm(g.iter)
-            if it in ('%s.keys()' % OLD, OLD, '%s.items()' % OLD, '%s.keys()' % NEW, NEW, '%s.items()' % NEW):
-                src = OLD if it.startswith(OLD) else NEW
-                K = norm(g.target) if not isinstance(g.target, ast.Tuple) else norm(g.target.elts[0])
-                Vn = norm(g.target.elts[1]) if isinstance(g.target, ast.Tuple) else None
-                clauses.append(('comp', src, K, Vn, g.ifs, comp_.elt))
+        elif isinstance(x, (ast.AugAssign, ast.Assign, ast.Expr)):
+            # comprehensions over the old / the new state anywhere in the statement (assigned, extended with, concatenated, joined)
+            for comp_ in [y for y in ast.walk(x) if isinstance(y, (ast.ListComp, ast.GeneratorExp))]:
+                g = comp_.generators[0]
+                it = norm(g.iter)
+                if it in ('%s.keys()' % OLD, OLD, '%s.items()' % OLD, '%s.keys()' % NEW, NEW, '%s.items()' % NEW):
+                    src = OLD if it.startswith(OLD) else NEW
+                    K = norm(g.target) if not isinstance(g.target, ast.Tuple) else norm(g.target.elts[0])
+                    Vn = norm(g.target.elts[1]) if isinstance(g.target, ast.Tuple) else None
+                    clauses.append(('comp', src, K, Vn, g.ifs, comp_.elt))
     if not clauses:
         R.undecided(f, opt, 'no clause of the optimiser iterates the old or the new state', construct='optimiser state')
         return
